@@ -137,19 +137,26 @@ def search_one(case, real, cache):
     version = case["req"]["version"] if case["req"]["version"] in ("1.0", "1.1") else "1.0"
     try:
         want_first = ("HTTP/%s %s" % (version, status)).encode("latin-1")
-        app_lines = [("%s: %s" % (py_norm(k), v)).encode("latin-1") for k, v in pairs]
     except UnicodeEncodeError:
-        return ("non latin-1 application string emitted", "500", repr(wire[:80]))
+        return ("non latin-1 status emitted", "500", repr(wire[:80]))
     if lines[0] != want_first:
         return ("status line", repr(want_first), repr(lines[0]))
     rest = list(lines[1:])
     has_body = not (status.startswith("1") or status.startswith("204") or status.startswith("304"))
-    for al in app_lines:
+    for k, v in pairs:
+        nk = py_norm(k)
+        # Content-Length belongs to the framing: the application's field is dropped for a
+        # status without body and replaced by the server's when a file wrapper is reconciled
+        optional = nk == "Content-Length"
+        try:
+            al = ("%s: %s" % (nk, v)).encode("latin-1")
+        except UnicodeEncodeError:
+            if optional:
+                continue
+            return ("non latin-1 application string emitted", "500", repr(wire[:80]))
         if al in rest:
             rest.remove(al)
-        elif al.startswith(b"Content-Length: ") and not has_body:
-            continue
-        else:
+        elif not optional:
             return ("application field missing from the head", repr(al), repr(lines))
     for l in rest:
         name = l.split(b": ", 1)[0].decode("latin-1")
@@ -270,7 +277,7 @@ def run(ctx):
                    {"failing_input_found": False, "broken": "Props/C08.v via %s" % failing, "log_tail": (log or "")[-1500:]})
 
     ctx.coverage.update({
-        "evaluations": evaluations,
+        "evaluations": len(cases),
         "distinct_nontrivial": len(nontrivial),
         "rule": "non-trivial = distinct response heads written by the real task for an accepted start_response; cases: every hostile code point at every position of status/name/value x 5 ways of reaching start_response, structural specials, non-str objects, mutation after the call, random header lists, and a slice of the framing decision table",
         "samples": samples,
